@@ -125,6 +125,20 @@ def solve(assertions, want_model=True, timeout_s=3):
     text = HEAD + "".join(f"(assert {a})\n" for a in assertions) + "(check-sat)\n"
     if want_model:
         text += "(get-value (f))\n"
+    # paths are explored by re-execution: the queries of a shared prefix recur verbatim
+    hit = _SOLVE_CACHE.get(text)
+    if hit is not None:
+        return hit
+    res = _solve_text(text, timeout_s)
+    if res[0] != "unknown":
+        _SOLVE_CACHE[text] = res
+    return res
+
+
+_SOLVE_CACHE = {}
+
+
+def _solve_text(text, timeout_s):
     path = os.path.join(_tmpdir(), f"q{os.getpid()}.smt2")
     with open(path, "w") as fh:
         fh.write(text)
